@@ -12,6 +12,7 @@ class Loop:
     modifies: Optional[List[str]] = None   # extra heap fields / ghost havocked (beyond syntactic)
     unroll: bool = False             # iterable has a literal length: unroll
     hints: List[Any] = field(default_factory=list)   # axiom instances (name, {var: expr}) assumed at the end of each iteration
+    init_hints: List[Any] = field(default_factory=list)  # axiom instances assumed before the invariant is first checked
     focus: bool = False              # prove inv-preserve from the loop-head facts + asserts only (the asserts summarise the body)
     asserts: List[str] = field(default_factory=list) # proof steps at the end of each iteration: each is an obligation, then assumed; entry(x) = value of x at the loop head
 
@@ -39,6 +40,9 @@ class Contract:
     lets: Dict[str, str] = field(default_factory=dict)       # spec-level abbreviations usable in clauses
     replay: Optional[str] = None     # 'module:function' under /verif/replay
     hints: List[str] = field(default_factory=list)           # extra lemma instances assumed after `requires` (each is itself an obligation of kind 'lemma')
+    result_is: Optional[str] = None  # pure callee whose result is exactly this spec expression (over its parameters)
+    exit_asserts: List[str] = field(default_factory=list)    # proof steps at every exit (each an obligation, then assumed); steps that cannot be evaluated on a path are skipped
+    exit_hints: List[Any] = field(default_factory=list)      # axiom instances / unfold(...) assumed at every exit before the postcondition is checked
     verify: bool = True
     opaque: List[str] = field(default_factory=list)          # non-recursive spec functions kept uninterpreted in this function's VCs
     reads: List[str] = field(default_factory=list)           # heap fields a pure callee's result depends on
